@@ -83,3 +83,8 @@ CLAIMS["C19"] = (
     "Generated paired entry/exit lists that drive the suffix/prefix/both-sides/cut branches (frequency of each branch reported in the evidence labels); every output is checked against the partition and link predicates computed by brute force from the input coordinates. Held on everything explored (48 000 cases in the thorough tier after two repairs).",
     "Real-valued boundary ties filtered; exact boundary hits decided on the integer-lattice family; chains identified by (tomogram, object).",
 )
+CLAIMS["C20"] = (
+    "property-based validity-predicate test with brute-force admissibility, independent greedy reference for tie-free cases, and metamorphic relations (rigid motion, voxel scaling, direction/label swap); numba candidate kernel compared set-wise",
+    "Generated two-sheet point clouds (planar/tilted/curved, lattice/random, noisy normals, mixed labelling) are measured and the result is checked to be a one-to-one, admissible, maximal, greedy-consistent matching with correct thicknesses; the candidate kernel must report exactly the admissible sets. Held on everything explored.",
+    "Margin filter 1e-9 at the distance and cone thresholds; < 25 candidates per source; CUDA twin not executable here.",
+)
